@@ -78,8 +78,8 @@ def scanOne (cs : List Char) : Option (Cls × Nat) :=
   | [] => none
   | c :: rest =>
     if isWs c then some (.skip, spanLen isWs cs)
-    else if c == '#' then some (.skip, cs.length)
-    else if c == '/' && rest.head? == some '/' then some (.skip, cs.length)
+    else if c == '#' then some (.skip, 1 + spanLen (· != '\n') rest)
+    else if c == '/' && rest.head? == some '/' then some (.skip, 2 + spanLen (· != '\n') (rest.drop 1))
     else if c == '\n' then some (.skip, 1)
     else if c == '(' then some (.tok .lparen, 1)
     else if c == ')' then some (.tok .rparen, 1)
